@@ -12,7 +12,7 @@ ROOT = os.path.dirname(os.path.dirname(os.path.abspath(__file__)))
 REPO = os.environ.get('VERIF_REPO', '/repo')
 
 
-def run(props, timeout=180, only=None, confirm=True, threads=8):
+def run(props, timeout=180, only=None, confirm=True, threads=8, tests=None):
     """runs the scenario files; a file that does not compile against this tree (it calls a function whose signature a change reshaped) is
     left out and the rest is run again - one stale scenario must not silence the others (files left out are listed under 'not_built')"""
     files = []
@@ -22,7 +22,7 @@ def run(props, timeout=180, only=None, confirm=True, threads=8):
         files = [os.path.join(ROOT, f) for f in only]
     left_out = []
     for attempt in range(6):
-        res = _run(props, [f for f in files if os.path.relpath(f, ROOT) not in left_out], timeout, confirm, threads)
+        res = _run(props, [f for f in files if os.path.relpath(f, ROOT) not in left_out], timeout, confirm, threads, tests)
         bad = res.pop('_not_building', None)
         if not bad:
             break
@@ -31,7 +31,9 @@ def run(props, timeout=180, only=None, confirm=True, threads=8):
     return res
 
 
-def _run(props, files, timeout, confirm, threads):
+def _run(props, files, timeout, confirm, threads, tests=None):
+    # tests: run only the test functions with these names (the confirmation run repeats what failed, not whole files)
+    flt = sorted(set(tests)) if tests else ['verif_w_']
     res = {'props': props, 'files': [os.path.relpath(f, ROOT) for f in files], 'ran': 0, 'passed': 0, 'failed': [], 'inconclusive': None, 'wall_s': 0}
     if not files:
         return res
@@ -69,7 +71,7 @@ def _run(props, files, timeout, confirm, threads):
         env = dict(os.environ, CARGO_TARGET_DIR=os.path.join(ROOT, '.cache', 'demo-target'), CARGO_NET_OFFLINE='true')
         # own process group: a scenario that hangs must not leave its test binary behind, and nobody else's processes are touched
         import signal
-        pr = subprocess.Popen(['cargo', 'test', '--offline', '--lib', 'verif_w_', '--', '--test-threads', str(threads)], cwd=w, env=env,
+        pr = subprocess.Popen(['cargo', 'test', '--offline', '--lib'] + flt + ['--', '--test-threads', str(threads)], cwd=w, env=env,
                               stdout=subprocess.PIPE, stderr=subprocess.STDOUT, text=True, start_new_session=True)
         hung = []
         try:
@@ -81,7 +83,7 @@ def _run(props, files, timeout, confirm, threads):
             out, _ = pr.communicate()
             out = out or ''
             try:
-                ls = subprocess.run(['cargo', 'test', '--offline', '--lib', 'verif_w_', '--', '--list'], cwd=w, env=env, capture_output=True, text=True, timeout=300)
+                ls = subprocess.run(['cargo', 'test', '--offline', '--lib'] + flt + ['--', '--list'], cwd=w, env=env, capture_output=True, text=True, timeout=300)
                 names = re.findall(r'^(\S+): test$', ls.stdout, re.M)
             except Exception:
                 names = []
@@ -124,7 +126,8 @@ def _run(props, files, timeout, confirm, threads):
     if confirm and res['failed']:
         again_files = sorted({f['scenario'] for f in res['failed'] if f.get('scenario')})
         if again_files:
-            second = run(props, timeout=timeout, only=again_files, confirm=False, threads=1)
+            again_tests = [f['test'].replace(' (did not finish)', '').split('::')[-1] for f in res['failed']]
+            second = run(props, timeout=timeout, only=again_files, confirm=False, threads=2, tests=again_tests)
             if not second.get('inconclusive'):
                 names2 = {f['test'].replace(' (did not finish)', '').split('::')[-1] for f in second['failed']}
                 kept = [f for f in res['failed'] if f['test'].replace(' (did not finish)', '').split('::')[-1] in names2]
